@@ -128,7 +128,10 @@ def t3_legal_write(rearm=False, allow=None, pre=None):
         for n, (e, g) in enumerate((e, g) for e, g in T.flat(ctx.st.effects) if e.kind == "update_workflow"):
             ld = e.data.get("loaded") or {}
             if "status" in ld:
-                goals.append((f"wf{n}", z3.Implies(g, can_transition(I, ld["status"].t, e.data["status"].t))))
+                legal = can_transition(I, ld["status"].t, e.data["status"].t)
+                if allow is not None:
+                    legal = z3.Or(legal, allow(ctx, e, ld["status"].t, e.data["status"].t))
+                goals.append((f"wf{n}", z3.Implies(g, legal)))
         return goals
     return check
 
